@@ -85,6 +85,7 @@ class EEMSWrite(SameArrayShapeMixin, Command):
             params.ResultParameter(params.DataParameter())
         ),
     }
+    output = params.BooleanParameter()
 
     def execute(self, **kwargs):
         commands = kwargs["OutFieldNames"]
